@@ -66,7 +66,7 @@ def generate(rng, n, tier, stats):
             hist.append({'op': op, 'status': status, 'obs': observe(ds), 'intended_reject': False})
             stats['history_op']['init'] += 1
         for _ in range(rng.randint(1, maxlen)):
-            kinds = ['set_new', 'set_new', 'set_replace', 'reject', 'del', 'rename_axis', 'var_rename_axis', 'set_dims',
+            kinds = ['set_new', 'set_new', 'set_replace', 'reject', 'reject', 'reject', 'del', 'rename_axis', 'var_rename_axis', 'set_dims',
                      'rename_axes', 'set_label', 'set_axis', 'replace_axis', 'rename_key']
             k = rng.choice(kinds)
             have = list(ds.keys()); dims = list(ds.dims)
